@@ -797,6 +797,36 @@ func checkC11InnerPtr(c *Ctx, p *Program) {
 				if !ok {
 					continue
 				}
+				// one returned object keeps a pointer to another returned object whose type can be modified
+				// in place (a private key pointing at the public key object that is handed out with it)
+				if other, ok := st.Val.(*ssa.Alloc); ok && returned[other] {
+					if dst, _ := memRoot(st.Addr); dst != nil {
+						if dAlloc, ok := dst.(*ssa.Alloc); ok && returned[dAlloc] && dAlloc != other {
+							var muts []string
+							ms := p.SSA.MethodSets.MethodSet(other.Type())
+							for i := 0; i < ms.Len(); i++ {
+								m := p.SSA.MethodValue(ms.At(i))
+								if m == nil || m.Blocks == nil || !ms.At(i).Obj().Exported() {
+									continue
+								}
+								for _, w := range p.Mod().of(m) {
+									if w.Root == "param#0" && !w.Sync {
+										muts = append(muts, m.Name())
+										break
+									}
+								}
+							}
+							if len(muts) > 0 {
+								sort.Strings(muts)
+								n++
+								nbad++
+								c.bad("C11.innerptr", fmt.Sprintf("%s: %s receives a pointer to another object returned by this function (%s)", fname(f), descAddr(st.Addr), other.Comment),
+									fmt.Sprintf("the two objects handed out share storage: %v of the pointee write it in place", muts), p.pos(st.Pos()))
+							}
+						}
+					}
+					continue
+				}
 				fa, ok := st.Val.(*ssa.FieldAddr)
 				if !ok {
 					continue
@@ -1188,5 +1218,89 @@ func checkC11ShareField(c *Ctx, p *Program) {
 	}
 	if nbad == 0 {
 		c.ok("C11.sharefield", "no method binds a field of its receiver to storage loaded from another object's field", fmt.Sprintf("%d stores of slice / map / pointer values into receiver fields inspected", nst), "")
+	}
+}
+
+// checkC11FullRead: a function that reads from an io.Reader it was handed examines how much it got:
+// io.Reader.Read may return fewer bytes than asked for with a nil error, so a direct Read whose count
+// is ignored silently works on a partly stale buffer (use io.ReadFull).
+func checkFullRead(c *Ctx, p *Program, rule string, prefixes ...string) {
+	var fs []*ssa.Function
+	for f := range p.AllFuncs {
+		if f.Blocks == nil || !isCirclFunc(f) || !sourceFunc(f) || f.Parent() != nil {
+			continue
+		}
+		rel := strings.TrimPrefix(funcPkgPath(f), circlPath+"/")
+		for _, pre := range prefixes {
+			if rel == strings.TrimSuffix(pre, "/") || strings.HasPrefix(rel, strings.TrimSuffix(pre, "/")+"/") {
+				fs = append(fs, f)
+				break
+			}
+		}
+	}
+	sort.Slice(fs, func(i, j int) bool { return fs[i].String() < fs[j].String() })
+	n, nbad := 0, 0
+	seen := map[string]bool{}
+	for _, f := range fs {
+		for _, b := range f.Blocks {
+			for _, in := range b.Instrs {
+				ci, ok := in.(ssa.CallInstruction)
+				if !ok || !ci.Common().IsInvoke() || ci.Common().Method.Name() != "Read" || ci.Common().Value.Type().String() != "io.Reader" {
+					continue
+				}
+				// the reader is (rooted at) a parameter of type io.Reader: whatever the caller passed
+				var par *ssa.Parameter
+				switch x := ci.Common().Value.(type) {
+				case *ssa.Parameter:
+					par = x
+				case *ssa.Phi: // rnd, or a default source when rnd is nil
+					for _, e := range x.Edges {
+						if q, ok := e.(*ssa.Parameter); ok {
+							par = q
+						}
+					}
+				}
+				if par == nil {
+					continue
+				}
+				n++
+				used := false
+				if v := ci.Value(); v != nil {
+					for _, r := range *v.Referrers() {
+						if ex, ok := r.(*ssa.Extract); ok && ex.Index == 0 && len(*ex.Referrers()) > 0 {
+							used = true
+						}
+					}
+				}
+				if used {
+					continue
+				}
+				construct := fname(f) + ": the byte count of a direct Read on the caller's reader " + par.Name() + " is examined"
+				if seen[construct] {
+					continue
+				}
+				seen[construct] = true
+				nbad++
+				c.bad(rule, construct, "the count returned by Read is ignored: a short read (allowed by io.Reader) leaves part of the buffer stale; io.ReadFull is not used", p.pos(ci.Pos()))
+			}
+		}
+	}
+	c.count("direct_reads_on_reader_params", n)
+	if nbad == 0 {
+		c.ok(rule, strings.Join(prefixes, ", ")+": every direct Read on a caller-supplied io.Reader has its byte count examined", fmt.Sprintf("%d functions inspected, %d direct reads on reader parameters (all other reads go through io.ReadFull)", len(fs), n), "")
+	}
+}
+
+func init() {
+	for prop, pres := range map[string][]string{"C01": {"kem/", "hpke"}, "C07": {"hpke"}, "C02": {"sign/"}} {
+		prop, pres := prop, pres
+		prev := registry[prop]
+		registry[prop] = func(c *Ctx) {
+			prev(c)
+			if p := c.Prog("amd64"); p != nil {
+				c.Clauses = append(c.Clauses, prop+".fullread: seeds and key material are taken from a caller-supplied io.Reader with io.ReadFull (or with the byte count examined): a short read must not silently yield a zero-padded seed")
+				checkFullRead(c, p, prop+".fullread", pres...)
+			}
+		}
 	}
 }
